@@ -321,10 +321,61 @@ proof! {
 	}
 }
 
+proof! {
+	[hash_mix, rand, bitmap] fn prunable_segment_root_needs_unspent_leaves() {
+		// the other half of "omitting a leaf the bitmap marks unspent makes validation fail": a
+		// segment of height 2 (leaves 0..3 of an 8-leaf MMR) that carries an arbitrary subset of
+		// its leaves plus the hashes of both height-1 parents: Segment::root - the first step of
+		// validate() - succeeds only if every leaf the bitmap marks unspent is among the leaves
+		// carried; and it succeeds whenever all four leaves are carried
+		let id = SegmentIdentifier { height: 2, idx: 0 };
+		let have: u8 = nd::any();
+		nd::assume(have < 16);
+		const LEAF_POS: [u64; 4] = [0, 1, 3, 4];
+		let mut leaf_pos = Vec::with_capacity(4);
+		let mut leaf_data = Vec::with_capacity(4);
+		let mut i = 0;
+		while i < 4 {
+			if have >> i & 1 == 1 {
+				leaf_pos.push(LEAF_POS[i]);
+				leaf_data.push(Elem(nd::any()));
+			}
+			i += 1;
+		}
+		let h2: [u8; 32] = nd::any();
+		let h5: [u8; 32] = nd::any();
+		let seg = Segment::<Elem>::from_parts(id, vec![2, 5], vec![Hash::from_vec(&h2), Hash::from_vec(&h5)], leaf_pos, leaf_data, proof_from(vec![]));
+		let mask: u8 = nd::any();
+		let mut bm = croaring::Bitmap::new();
+		i = 0;
+		while i < 8 {
+			if mask >> i & 1 == 1 {
+				bm.add(i as u32);
+			}
+			i += 1;
+		}
+		let r = seg.root(15, Some(&bm));
+		let unspent_in_segment = mask & 0x0f;
+		if r.is_ok() {
+			check!(unspent_in_segment & !have == 0, "root() succeeds only if every leaf the bitmap marks unspent is carried by the segment");
+		}
+		if have == 0x0f {
+			check!(r.is_ok(), "a segment carrying all its leaves always has a root");
+		}
+		cover!(r.is_ok() && have == 0x0c, "leaves 0 and 1 spent and omitted, their parent's hash used");
+		cover!(r.is_err() && unspent_in_segment & !have != 0, "an omitted unspent leaf is refused");
+		cover!(matches!(r, Ok(None)), "fully spent segment: no root of its own");
+		core::mem::forget(r);
+		core::mem::forget(seg);
+		core::mem::forget(bm);
+	}
+}
+
 pub const HARNESSES: &[(&str, fn())] = &[
 	("c16::segment_prunable_uncompacted_complete", segment_prunable_uncompacted_complete),
 	("c16::segment_complete", segment_complete),
 	("c16::segment_sound", segment_sound),
+	("c16::prunable_segment_root_needs_unspent_leaves", prunable_segment_root_needs_unspent_leaves),
 	("c16::pruned_segment_parent_covers_only_spent_leaves", pruned_segment_parent_covers_only_spent_leaves),
 	("c16::segment_identifier_arithmetic", segment_identifier_arithmetic),
 ];
